@@ -68,10 +68,17 @@ OrderFamily ==
 
 C05Inst == BalanceInst \cup AddrZeroInst \cup BoolEqInst \cup ArrayUpdInst \cup IncDecInst \cup RequireInst \cup CmpInst
            \cup ShiftInst \cup KeccakInst \cup MathInst \cup CacheLenInst
+\* operand matrices: as a statement of their own and in a few frames (quick) / every frame (thorough)
+C05Matrix == AddrZeroMatrix \cup BoolEqMatrix \cup CmpMatrix \cup MathMatrix
+MatrixFrames == IF Full THEN EHole ELSE {f \in EHole : f.k \in {"E.Not", "S.Return"} /\ f.hp = 1}
+MatrixFamily(insts) ==
+    UNION {{L(i.label \o "@" \o f.k \o "." \o ToString(f.hs) \o "." \o ToString(f.hp) \o "/function", Place(f, i.tree, "function")) : f \in MatrixFrames}
+           : i \in insts}
+    \cup {L(i.label \o "@stmt/function", HostFile("function", <<ExprStmt(i.tree)>>)) : i \in insts}
 C07Inst == Erc20Inst \cup DivMulInst
 
 Files ==
-    CASE Prop = "C05" -> ExprFamily(C05Inst) \cup StmtFamily(C05Inst)
+    CASE Prop = "C05" -> ExprFamily(C05Inst) \cup StmtFamily(C05Inst) \cup MatrixFamily(C05Matrix)
       [] Prop = "C06" -> DeclFamily(FnProduct \cup VarProduct) \cup OrderFamily \cup BetweenFamily(FnProduct \cup {v \in VarProduct : Full})
       [] Prop = "C07" -> ExprFamily(C07Inst) \cup DeclFamily(DestructShapes)
                          \cup {L(i.label \o "@stmt", HostFile("function", <<ExprStmt(i.tree)>>)) : i \in DivMulChainInst}
